@@ -55,6 +55,10 @@ def main():
         res['facts']['compiles'] = rc == 0
         rc, out = sh('ctest --test-dir _build -j8', cwd=wt)
         res['facts']['tests_pass'] = rc == 0 and '100% tests passed' in out
+        # the cmake build regenerates lex.yy.c in the source tree when flex is installed: put the patched sources back
+        sh('git checkout -- . && git apply %s' % patch, cwd=wt)
+        if 'lexer.l' in open(patch).read():
+            sh('flex --outfile=./src/lex.yy.c --header-file=./include/lex.yy.h --noline --nounistd ./src/lexer.l', cwd=os.path.join(wt, 'Compiler'))
         rc, out = sh(build_demo, cwd=wt)
         rc, out = sh('%s/demo_bin' % wt, cwd=wt, timeout=300)
         res['facts']['demo_fails_with_patch'] = rc != 0
